@@ -1,7 +1,7 @@
 (* C17 — property theorems only.  Each is closed by [exact] of a lemma from
    the proof files; the driver pins the statements with [Check] and prints the
    assumptions on every run.  (Generated together with props/C17.json.) *)
-From Yv Require Import Common.Base C17.Model C17.Spec C17.PLex C17.PMeasure C17.PSim C17.Proofs C17.PChain C17.Examples.
+From Yv Require Import Common.Base C17.Model C17.Spec C17.PLex C17.PMeasure C17.PSim C17.Proofs C17.PChain C17.PTok C17.Examples.
 
 (* alias substitution in the model terminates for every alias table (self- and mutually recursive included) and every command text: the fuel computed from the input never runs out *)
 Theorem alias_terminates : forall (t : table) (line : str), model_run t line <> ROutOfFuel.
@@ -79,6 +79,14 @@ Proof. exact reserved_word_first_not_candidate. Qed.
 Theorem command_word_is_candidate : forall a g, (exists n, decide PCmd TWord a g = ATry true n) /\ (forall fn arr, exists n, decide (PSimple true fn arr) TWord a g = ATry true n) /\ (forall fn arr, exists n, decide (PSimple false fn arr) TWord a g = ATry false n).
 Proof. exact command_word_is_candidate. Qed.
 
+(* reading a text with no alias defined reproduces the text: the token sequence `tokens [] text` of Run.v is the plain lexing of the text, nothing is replaced *)
+Theorem plain_run_identity : forall (text : str) (b : list (N * chain)), spec_run [] text = RFin b -> text_of b = text.
+Proof. exact plain_run_identity. Qed.
+
+(* reading the hand-substituted text again (without aliases) changes nothing *)
+Theorem substituted_text_is_stable : forall (t : table) (line : str) (b b' : list (N * chain)), spec_run t line = RFin b -> spec_run [] (text_of b) = RFin b' -> text_of b' = text_of b.
+Proof. exact substituted_text_is_stable. Qed.
+
 (* oracle soundness: the run-time oracle (clauses 2, 3, 4) accepts the model's own output *)
 Theorem oracle_accepts_model : forall t line mb sb, model_run t line = RFin mb -> spec_run t line = RFin sb -> chains_ok t (observe mb) = true /\ str_eqb (text_of (observe mb)) (text_of sb) = true /\ obs_eqb (observe mb) sb = true.
 Proof. exact oracle_accepts_model. Qed.
@@ -114,6 +122,8 @@ Print Assumptions blank_continuation_chain_model.
 Print Assumptions only_words_are_candidates.
 Print Assumptions reserved_word_first_not_candidate.
 Print Assumptions command_word_is_candidate.
+Print Assumptions plain_run_identity.
+Print Assumptions substituted_text_is_stable.
 Print Assumptions oracle_accepts_model.
 Print Assumptions word_followed_by_delimiter.
 Print Assumptions word_starts_with_nondelimiter.
